@@ -91,6 +91,13 @@ Proof. intros S d loc s a l A H. split; [exact (subdirs_sorted S d loc l H) | ex
 Theorem C13_layer_subdirs_spec : forall L d tr q, wf_layer L ->
   (In q (l_subdirs L (d, tr)) <-> l_get L q = Some Dir /\ exists n, q = d ++ [n]).
 Proof. exact l_subdirs_wf. Qed.
+(* both together (review r4, C13-2), and without duplicates *)
+Theorem C13_subdirs_union : forall S d loc s dd tr l,
+  wf_fs S -> fs_addr S d loc = FOk (s, (dd, tr)) -> fs_subdirectories S d loc = FOk l ->
+  forall x, In x l <-> exists L n, In L (layers S) /\ l_get L (dd ++ [n]) = Some Dir /\ x = render_path (dd ++ [n]).
+Proof. exact subdirs_union. Qed.
+Theorem C13_subdirs_nodup : forall S d loc l, fs_subdirectories S d loc = FOk l -> NoDup l.
+Proof. intros S d loc l H. exact (strictly_sorted_nodup l (subdirs_sorted S d loc l H)). Qed.
 
 (* every listed path exists according to the filesystem's own existence queries *)
 Theorem C13_listed_exist : forall S d pat loc l x,
@@ -99,6 +106,17 @@ Proof. exact listed_exist. Qed.
 Theorem C13_subdirs_listed_exist : forall S d loc l x,
   wf_fs S -> fs_subdirectories S d loc = FOk l -> In x l -> fs_directory_exists S x false = FOk true.
 Proof. exact subdirs_listed_exist. Qed.
+(* ... of its KIND (review r4, C13-3): a listed file satisfies file_exists, a listed directory directory_exists, as found in the
+   layer that contributed the entry *)
+Theorem C13_listed_exist_kind : forall S d pat loc l x,
+  wf_fs S -> fs_list S d pat loc = FOk l -> In x l ->
+  exists L q, In L (layers S) /\ x = render_path q /\
+    match l_get L q with
+    | Some (File _) => fs_file_exists S x false = FOk true
+    | Some Dir => fs_directory_exists S x false = FOk true
+    | None => False
+    end.
+Proof. exact listed_exist_kind. Qed.
 
 (* a directory present in no layer lists as empty *)
 Theorem C13_missing_is_empty : forall S d pat loc s a,
